@@ -370,7 +370,7 @@ func init() {
 		ruleRemapOffset(r)
 		ruleChunkFileFresh(r)
 		ruleRemapCompletion(r)
-		r.support([]string{"layout", "predict", "primary-mark", "freelist-consume", "meta-atomic", "strip-whole-bytes", "scan-from-firstfile", "header-persist", "pos-width", "open-length", "append-flags", "header-preserved", "cancel-not-completion", "completion", "limit-component", "data-file-writers", "bounds-from-same-file", "errors-not-dropped", "config-wiring", "gc-start-order", "copy-complete", "remap-pool-fresh"})
+		r.support([]string{"layout", "predict", "primary-mark", "freelist-consume", "meta-atomic", "strip-whole-bytes", "scan-from-firstfile", "header-persist", "pos-width", "open-length", "append-flags", "header-preserved", "cancel-not-completion", "completion", "limit-component", "data-file-writers", "bounds-from-same-file", "errors-not-dropped", "config-wiring", "gc-start-order", "copy-complete", "remap-pool-fresh", "scan-ends-at-eof", "rescan-applies-all"})
 	},
 		"Decides the ordering/shape clauses of the legacy upgrade, not equality of contents or resumability at every crash point: upgradePrimary applies the pending freelist (offsets in the old linear address space) before chunking (excused only when there is no freelist), chunks only if that succeeded, writes the header (which marks completion) only after successful chunking and removes the legacy file only after the header; upgradeIndex converts only version 2, header after chunking, removal after header; remapIndex rewrites offsets only in .tmp copies, closes before renaming temp over original, records completion only after the per-file loop (or when nothing needs remapping) and always queues entries whose offset cannot be remapped for deletion; the five start-a-new-file tests (flushBucket, flushBlock, primary Put, both chunkers) use the same >= relation; chunkOldPrimary and applyFreeList honour the deleted bit. Not covered: RemapOffset arithmetic, equality of contents, the marker-then-rename window (observation O-4).")
 }
